@@ -456,7 +456,7 @@ func TestFaultPairs(t *testing.T) {
 			t.Fatalf("dry run: %s", dries[cfg].failure)
 		}
 	}
-	hx.Check(t, 400, 20000, 0, func(rt *rapid.T) {
+	hx.Check(t, 400, 150000, 0, func(rt *rapid.T) {
 		cfg := allConfigs[rapid.IntRange(0, len(allConfigs)-1).Draw(rt, "cfg")]
 		all := enumerate(dries[cfg])
 		a := all[rapid.IntRange(0, len(all)-1).Draw(rt, "a")]
